@@ -2,6 +2,7 @@
 # convenience: run every registered check of a tier, summarise
 tier=${1:-quick}
 rc=0
+mkdir -p work
 for p in C01 C02 C03 C04 C05 C06 C07 C08 C09 C10 C11 C12 C13 C14 C15 C16 C17 C18 C19; do
   /venv/bin/python harness/check.py $p --tier $tier > work/last-$p.log 2>&1
   r=$?
